@@ -345,6 +345,11 @@ func writeReplay(id, tier string, v *Violation, n int) string {
 	os.MkdirAll(dir, 0o755)
 	lab := regexp.MustCompile(`[^A-Za-z0-9_.-]+`).ReplaceAllString(v.Label, "_")
 	file := filepath.Join(dir, fmt.Sprintf("%s-%s-%d.json", v.Harness, lab, n))
+	if v.Kind == "witness" {
+		// transient file (removed when the native run agrees): unique per process so that
+		// concurrent runs of the same property do not delete each other's witnesses
+		file = filepath.Join(dir, fmt.Sprintf("%s-%s-%d-p%d.json", v.Harness, lab, n, os.Getpid()))
+	}
 	data, _ := json.MarshalIndent(map[string]interface{}{
 		"harness": v.Harness, "tier": tier, "vars": v.Model, "ufs": v.UFs, "label": v.Label, "kind": v.Kind, "detail": v.Detail, "property": id,
 	}, "", " ")
